@@ -101,8 +101,22 @@ pub fn run_case(ctx: &Ctx, prog: &Program, tuples: &[Vec<i64>]) -> CaseResult {
 
 /// second domain: directly generated non-linear programs
 pub fn run_direct(ctx: &Ctx, bytes: &[u8]) -> CaseResult {
-    let fuel = ctx.tier.pick(100_000, 300_000);
     let (prog, tuples) = crate::gen_axcut::gen_nonlinear(bytes, crate::gen_axcut::NlCfg { size: ctx.tier.pick(30, 50), max_main_params: 4, max_env: 20 }, 2);
+    run_axcut(ctx, prog, tuples, "direct generator")
+}
+
+/// third domain: AxCut programs shrunk from directly generated Core programs (gen_core)
+pub fn run_from_core(ctx: &Ctx, bytes: &[u8]) -> CaseResult {
+    let cfg = crate::gen_core::CoreCfg { size: ctx.tier.pick(28, 44), max_defs: 3, max_main_params: 3, reuse: 60, allow_print: true };
+    let (core, tuples, _) = crate::gen_core::gen_core(bytes, &cfg);
+    match pipeline::focus(core).and_then(pipeline::shrink) {
+        Ok(prog) => run_axcut(ctx, prog, tuples, "shrunk from a generated Core program"),
+        Err(_) => CaseResult::Discard("an earlier stage failed on the generated Core program (decided by C12)".into()),
+    }
+}
+
+fn run_axcut(ctx: &Ctx, prog: axcut::syntax::Prog, tuples: Vec<Vec<i64>>, source: &str) -> CaseResult {
+    let fuel = ctx.tier.pick(100_000, 300_000);
     let fail = |kind: &str, summary: String, details: serde_json::Value| CaseResult::Fail(Failure { kind: kind.into(), summary, details });
     if let Err(e) = tc_axcut::check_named(&prog).and_then(|_| tc_axcut::check_binders_unique(&prog)) {
         return fail("harness", format!("harness error: generated non-linear program is ill-formed: {e}"), json!({"axcut": printer::Print::print_to_string(&prog, None)}));
@@ -117,7 +131,7 @@ pub fn run_direct(ctx: &Ctx, bytes: &[u8]) -> CaseResult {
     }
     let mut any = false;
     let mut nontrivial = false;
-    let mut classes = vec!["direct generator".to_string()];
+    let mut classes = vec![source.to_string()];
     for t in &tuples {
         let (o, st) = mach_axcut::run_named(&prog, t, fuel);
         match &o {
@@ -155,7 +169,7 @@ pub fn run_direct(ctx: &Ctx, bytes: &[u8]) -> CaseResult {
 pub fn check(ctx: &Ctx) -> i32 {
     let start = Instant::now();
     let mut ev = Evidence::default();
-    ev.rule = "non-linear AxCut programs produced by the pipeline from generated Fun programs; oracles: (1) named AxCut machine on the input vs positional/linear machine on Prog::linearize() (output, result, termination); (2) a static checker over every path of the linearized program implementing what the code generators read off positions (call: callee's parameters; invoke: arguments then closure; let: rest then arguments; switch: rest then scrutinee, clauses in declaration order; create: rest then captured environment; operands present; kinds and types agree; only substitute duplicates/drops). Non-trivial: the run executed a substitute that duplicates or drops an object variable; distinct by hash of (source, arguments).".into();
+    ev.rule = "non-linear AxCut programs produced by the pipeline from generated Fun programs; oracles: (1) named AxCut machine on the input vs positional/linear machine on Prog::linearize() (output, result, termination); (2) a static checker over every path of the linearized program implementing what the code generators read off positions (call: callee's parameters; invoke: arguments then closure; let: rest then arguments; switch: rest then scrutinee, clauses in declaration order; create: rest then captured environment; operands present; kinds and types agree; only substitute duplicates/drops). Non-trivial: the run executed a substitute that duplicates or drops an object variable; distinct by hash of (source, arguments). Second domain: non-linear AxCut programs generated directly (gen_axcut). Third domain: AxCut programs shrunk from directly generated Core programs (gen_core), e.g. closures in constructor fields and destructors with several continuations.".into();
     ev.assumptions = vec!["AxCut machines as in DESIGN.md 3.3".into()];
     let n = ctx.tier.pick(6000, 300000);
     let run = |b: &[u8]| {
@@ -178,12 +192,23 @@ pub fn check(ctx: &Ctx) -> i32 {
             report.violations.push(write_replay(ctx, "direct", &bytes, &f));
         }
     }
+    if report.violations.is_empty() {
+        let n3 = ctx.tier.pick(4000, 300000);
+        let out3 = drive(&mut ev, ctx.seed, 205, n3, 60, 1500, 300, &|b| run_from_core(ctx, b));
+        if let Some((bytes, f)) = out3.failure {
+            eprintln!("{}", f.summary);
+            report.violations.push(write_replay(ctx, "fromcore", &bytes, &f));
+        }
+    }
     finish(ctx, &ev, &report, start)
 }
 
 pub fn replay(ctx: &Ctx, sub: &str, bytes: &[u8], case: &serde_json::Value) -> CaseResult {
     if sub.starts_with("direct") {
         return run_direct(ctx, bytes);
+    }
+    if sub.starts_with("fromcore") {
+        return run_from_core(ctx, bytes);
     }
     let c = fun_case_from_json(case).unwrap_or_else(|| decode(ctx, bytes));
     run_case(ctx, &c.prog, &c.tuples)
